@@ -269,3 +269,72 @@ def main():
 
 if __name__ == "__main__":
     sys.exit(main())
+
+
+# ---------------------------------------------------------------------------
+# spec -> implementation: replay of TLC's complete state graph
+# ---------------------------------------------------------------------------
+def graph_replay(prop, tag, module, cfg, model, extra_args, workers=4, timeout=1800):
+    """Runs TLC on a MC_* module that prints INIT/EDGE lines, then replays every
+    transition on the real object.  Returns a dict with counts and mismatches."""
+    exe = vlib.build_harness("release")
+    wd = os.path.join(vlib.WORK, prop)
+    os.makedirs(wd, exist_ok=True)
+    out, st = vlib.tlc(module, cfg, os.path.join(vlib.WORK, f"md_{prop}_{tag}"), workers=workers, timeout=timeout,
+                       java_opts="-Xss256m -Xmx6g -XX:+UseParallelGC")
+    if "Error:" in out or "No error has been found" not in out:
+        # an invariant of the model itself failed, or TLC broke
+        tail = "\n".join(l for l in out.splitlines() if not l.startswith('"'))[-3000:]
+        if "Invariant" in out and "is violated" in out:
+            return {"model_violation": tail, "states": st["distinct"], "transitions": st["states"]}
+        raise vlib.ToolError(f"TLC failed on {module}/{cfg}:\n{tail}")
+    gpath = os.path.join(wd, f"{tag}.graph")
+    with open(gpath, "w") as f:
+        f.write("\n".join(l for l in out.splitlines() if l.startswith('"EDGE|') or l.startswith('"INIT|')) + "\n")
+    rpath = os.path.join(wd, f"{tag}.replay.json")
+    import subprocess
+    r = subprocess.run([exe, "replay", "--model", model, "--graph", gpath, "--out", rpath, "--quiet"] + extra_args,
+                       capture_output=True, text=True)
+    if r.returncode != 0:
+        raise vlib.ToolError(f"replay driver failed: {r.stderr[-2000:]}")
+    rep = json.load(open(rpath))
+    rep["tlc_states"] = st["distinct"]
+    rep["tlc_transitions"] = st["states"]
+    os.remove(gpath)
+    return rep
+
+
+def finish_graph_check(prop, tier, seed, t0, reps, extra_cov=None, assumptions=None):
+    nviol = 0
+    states = sum(r.get("tlc_states", 0) for r in reps)
+    trans = sum(r.get("tlc_transitions", 0) for r in reps)
+    edges = sum(r.get("edges", 0) for r in reps)
+    samples = []
+    for r in reps:
+        samples += r.get("samples", [])[:2]
+        if r.get("model_violation"):
+            raise vlib.ToolError("the model violates its own invariant:\n" + r["model_violation"])
+        if r.get("mismatches", 0):
+            nviol += r["mismatches"]
+            d = os.path.join(vlib.REPLAYS, prop)
+            os.makedirs(d, exist_ok=True)
+            path = os.path.join(d, f"{r['model']}_mismatch.json")
+            json.dump({"property": prop, "model": r["model"], "mismatches": r["mismatches"], "first": r["first"]},
+                      open(path, "w"))
+            print(f"VIOLATION property={prop} replay={path}")
+            log(f"  {r['mismatches']} transitions of the {r['model']} model are not reproduced by the code; first: "
+                + json.dumps(r["first"][:1])[:600])
+    cov = {"states": states, "transitions": trans, "traces_validated_against_impl": edges,
+           "samples": samples or [{"note": "no sample"}],
+           "evaluations": edges, "distinct_nontrivial": edges,
+           "rule": "every transition of the model's complete state graph (TLC, bounded constants) is one test: a shortest "
+                   "operation path from the initial state plus the transition, executed on a fresh real object, comparing the "
+                   "full observation after every operation; all transitions are distinct by construction",
+           "ops_executed": sum(r.get("ops_executed", 0) for r in reps),
+           "exhaustive": True}
+    if extra_cov:
+        cov.update(extra_cov)
+    vlib.write_evidence(prop, tier, seed, "model_checking", cov, time.time() - t0, nviol,
+                        assumptions or ["the model's observation function projects the real object's public API faithfully",
+                                        "constants bound the alphabet (see cfg files)"])
+    return 1 if nviol else 0
